@@ -92,13 +92,17 @@ extern "C" int LLVMFuzzerTestOneInput(const uint8_t *data, size_t size)
   conf += globals[fdp.ConsumeIntegralInRange<int>(0, 7)];
   auto const &T = templates();
   bool any_boundary = false;
-  // the three variables first (each may be mutated), then 1-3 biases
-  std::vector<int> order = {0, 1, 2};
+  // 1-3 biases and the three variables (each may be mutated).  The biases consume the input first: the provider returns its
+  // minimum once the bytes run out, and short inputs would otherwise never reach a bias keyword
+  std::vector<int> order;
   int nb = fdp.ConsumeIntegralInRange<int>(1, 3);
   for (int k = 0; k < nb; k++) order.push_back(fdp.ConsumeIntegralInRange<int>(3, (int)T.size() - 1));
+  order.push_back(0); order.push_back(1); order.push_back(2);
+  std::string conf_biases, conf_cvs;
   for (int ti : order) {
     TPL const &t = T[ti];
-    conf += t.head;
+    std::string &out = (ti <= 2) ? conf_cvs : conf_biases;
+    out += t.head;
     for (auto const &kw : t.kws) {
       int mode = fdp.ConsumeIntegralInRange<int>(0, 3);
       bool essential = (std::string(kw.key) == "width" || std::string(kw.key) == "lowerBoundary" || std::string(kw.key) == "upperBoundary" ||
@@ -108,12 +112,14 @@ extern "C" int LLVMFuzzerTestOneInput(const uint8_t *data, size_t size)
                         std::string(kw.key) == "upperWalls" || std::string(kw.key) == "hillWidth");
       if (mode == 0 && !essential) continue;         // drop optional keyword
       if (mode == 0 && essential && fdp.ConsumeIntegralInRange<int>(0, 5) == 0) continue;  // rarely drop an essential one
-      if (mode == 1 && !essential) continue;
-      conf += std::string(" ") + kw.key + " " + mutate_value(fdp, kw, any_boundary) + "\n";
+      if (mode == 1 && !essential) { out += std::string(" ") + kw.key + " " + kw.def + "\n"; continue; }   // template value
+      out += std::string(" ") + kw.key + " " + mutate_value(fdp, kw, any_boundary) + "\n";
     }
-    conf += t.body;
-    conf += t.tail;
+    out += t.body;
+    out += t.tail;
   }
+  conf += conf_cvs + conf_biases;
+  if (getenv("VF_DUMP_CONF")) fprintf(stderr, "=====CONF\n%s\n", conf.c_str());
   int rc = p->colvars->read_config_string(conf);
   if (rc == 0 && cvm::get_error() == 0) {
     int const nsteps = fdp.ConsumeIntegralInRange<int>(0, 6);
